@@ -294,7 +294,7 @@ def gen_case(rng, dev):
     # breakpoint history
     hist = []
     r = rng.random()
-    nh = 0 if r < 0.3 else rng.choice([1, 2, 3, 4, 6, 9])
+    nh = 0 if r < 0.3 else rng.choice([1, 2, 3, 4, 6, 9, 9, 16, 24])    # long ones: breakpoint numbers with two digits
     added = 0
     for _ in range(nh):
         r = rng.random()
